@@ -179,10 +179,11 @@ def dataCols (data : Data) (columns : Option (List String)) : Option (Except Err
           | .error e => .error e
           | .ok kvs => .ok (Table.ofPairs kvs))
   | .rows (hd :: rs), Option.none =>
-      -- dict(zipper(data[0], zipper(*data[1:])))
+      -- dict(zipper(data[0], zipper(*data[1:]))); a header without any row: the columns, empty (repaired code)
       match hd.mapM headerKey with
       | Option.none => Option.none
-      | some hs => some (match zipper Cell.none rs with
+      | some hs => if rs.isEmpty then some (.ok (Table.ofPairs (hs.map fun h => (h, [])))) else
+        some (match zipper Cell.none rs with
         | .error e => .error e
         | .ok tr => match zipper2 hs tr with
           | .error e => .error e
